@@ -11,7 +11,7 @@ from __future__ import annotations
 import ast
 from fractions import Fraction
 
-from ..interp import Interp, Phi, Ref, Tup, vtext
+from ..interp import Interp, Phi, Ref, Tup, vtext, make_flag_decide
 from ..interval import Aff, Arr, Facts, IntervalDomain, Iv, MaskV, nf_to_aff
 from ..nf import NF
 from ..program import AnalysisError, Program, unparse, short, walk_no_nested
@@ -145,7 +145,7 @@ def analyse(prog: Program, kmin: int = 2):
     K = it.objenv.get("forcing.K")
     # entry B: Tracker.update (metric, depth, atsea; defines the stage margins)
     tu = prog.func("tracker.Tracker.update")
-    it.decide_hook = lambda test, fr, i: True if unparse(test) in ("self.advection", "self.diffusion", "self.vertdiff", "self.vertical_advection", "self.vertdiff or self.vertical_advection") else None
+    it.decide_hook = make_flag_decide(dict(advection=True, diffusion=True, vertdiff=True, vertical_advection=True))
     it.run(tu, {}, "tracker")
     it.decide_hook = None
     entries.append(tu.qual)
